@@ -184,6 +184,32 @@ func checkC17(c *Check) {
 		c.Cond(sites >= 1, "routing", name+": emit site in "+fn.Name(), p.Pos(fn.Pos()), fmt.Sprintf("%d emit site(s)", sites), "entry function has no emit site")
 	}
 	c.Floor("attacker-facing messages with a pattern", 3, found)
+	// the text the patterns see is the whole message as delivered: the line
+	// field is set once, from the ingester's message, with nothing cut out
+	nst := 0
+	for _, fn := range p.AllRepoFuncs() {
+		allInstrs(fn, func(in ssa.Instruction) {
+			st, ok := in.(*ssa.Store)
+			if !ok {
+				return
+			}
+			fa, ok := st.Addr.(*ssa.FieldAddr)
+			if !ok || fieldName(fa.X.Type(), fa.Field) != "logEntry" {
+				return
+			}
+			if nt := namedOf(fa.X.Type()); nt == nil || nt.Obj().Name() != "SshdProcessorer" {
+				return
+			}
+			nst++
+			a, isAlloc := fa.X.(*ssa.Alloc)
+			fresh := isAlloc && len(NewResolver(p).cellStores(a)) == 0
+			o := NewResolver(p).Of(st.Val)
+			root, names := o.FieldPath()
+			whole := root.K == "param" && len(names) == 1 && names[0] == "Message"
+			c.Cond(fresh && whole, "line-integrity", "store to SshdProcessorer.logEntry in "+fn.Name(), p.InstrPos(in), "the line field is initialised once with the delivered message", "the text the patterns are matched against is rewritten or cut ("+trimOrg(o.String())+"): client-chosen text inside the message can remove or replace the part sshd appended")
+		})
+	}
+	c.Floor("stores to the line field", 1, nst)
 	_ = rx
 }
 
